@@ -3,7 +3,7 @@
    Polytope, LooseEdges), in exact arithmetic on lattice polytopes, composed with the GJK loop model.
 
    When the GJK model ends with "hit" and four simplex points, EPA starts from the faces ABC, ACD, ADB,
-   BDC (normals as computed, no winding fix at initialisation).  One EpaStep = one iteration of epa():
+   BDC of the start tetrahedron, oriented first (OrientStart; as found the rows were taken as GJK left them).  One EpaStep = one iteration of epa():
      closest   ANY face with the smallest signed distance a.n/|n| (np.argmin on rounded values)
      w         ANY support point of D along the closest face's normal
      converge  if w.n - a.n <= 0 (the 1e-8 tolerance is an exact zero on the lattice): mtv = n (w.n)/(n.n)
@@ -24,6 +24,8 @@ CONSTANTS ScenePairs,     \* set of <<A, B>>: vertex sequences of the two polyto
           SupportTies,    \* "any": every maximiser; "order": the first maximal vertex of each array (ConvexHullVertices.support_function)
           SwapVariant,    \* fix_ccw_normal_direction: "aliased" = the code as written (temp is a numpy view, so after the
                           \* 'swap' both vertex 0 and vertex 1 hold the old vertex 1); "correct" = a real swap
+          OrientStart,    \* TRUE = the library since fix 18911a2: the start tetrahedron is oriented (two rows swapped when its signed
+                          \* volume is positive) before the four faces are built; FALSE = as found: faces from the rows as GJK left them
           MaxEpaIter, RequireProperStart, ClosestTies   \* "first": np.argmin on exact values; "any": every face of minimal distance
 VARIABLES AB,       \* the two vertex sequences
           F,        \* polytope: sequence of faces [p |-> <<a, b, c>>, n |-> primitive normal]
@@ -84,7 +86,8 @@ EInit == /\ AB \in ScenePairs /\ D = DiffSet(AB) /\ Y = <<>> /\ dir = <<1, 0, 0>
 GjkStep == st = "run" /\ it < MaxIter /\ (\E w \in Sups(dir) : StepW(w)) /\ UNCHANGED evars
 EpaStart == /\ st = "hit" /\ est = "off" /\ Len(Y) = 4
             /\ (RequireProperStart => ProperStart(Y))
-            /\ F' = <<Face(Y[1], Y[2], Y[3]), Face(Y[1], Y[3], Y[4]), Face(Y[1], Y[4], Y[2]), Face(Y[2], Y[4], Y[3])>>
+            /\ LET Z == IF OrientStart /\ Det4(Y) > 0 THEN <<Y[1], Y[3], Y[2], Y[4]>> ELSE Y IN
+               F' = <<Face(Z[1], Z[2], Z[3]), Face(Z[1], Z[3], Z[4]), Face(Z[1], Z[4], Z[2]), Face(Z[2], Z[4], Z[3])>>
             /\ est' = "run" /\ eit' = 0 /\ UNCHANGED <<vars, res, AB>>
 (* one iteration with the closest face c and the support point w *)
 EpaStepCW(c, w) ==
